@@ -45,7 +45,7 @@ EnumInit ==
      /\ ~(g /\ sp)                              \* both backends refuse initial state + SPAM (not a run)
      /\ (b = "sv" => ~ro)
      /\ (Focus = "spe" => sp) /\ (Focus = "nospe" => ~sp)
-     /\ (dm = 3 => (n <= MaxNDim3 /\ sp))       \* the level count only matters for the padding
+     /\ (dm = 3 => (n <= MaxNDim3 /\ sp /\ b = "mps"))   \* the level count only matters for the padding (emu-mps)
      /\ sc = [backend |-> b, n |-> n, rho |-> r, optp |-> p, reorder |-> ro, spe |-> sp, dark |-> d,
               given |-> g, dim |-> dm]
 
